@@ -1,6 +1,7 @@
 package c07
 
 import (
+	"Havoc/pkg/agent"
 	"fmt"
 	"os"
 	"sort"
@@ -91,6 +92,9 @@ func newHistRun(r *ev.Run, w *world, cfg histCfg) *histRun {
 	// an open for T0's file id with a name that must be refused (it climbs out of the loot
 	// folder), sent while T0 is running: nothing may change, T0's later chunks still count
 	h.labels = append(h.labels, "refused-open(id of T0)+write(T0)")
+	// the agent confirms "transfer remove" for T0 (found) but has not closed it yet; then a
+	// second transfer asks for T0's file: T0 is still running, its file is still taken
+	h.labels = append(h.labels, "transfer-remove-reply(T0, found)+open(T3)")
 	return h
 }
 
@@ -103,6 +107,9 @@ func (h *histRun) decode(op int) (t int, kind string) {
 	u := len(h.xfers) - 1
 	if op == 3*u+2 {
 		return 0, "refused-open"
+	}
+	if op == 3*u+3 {
+		return 0, "remove-reply"
 	}
 	if op >= 3*u {
 		return u, []string{"write", "close"}[op-3*u]
@@ -153,6 +160,14 @@ func (h *histRun) step(hist []int) explore.StepResult {
 	for i, op := range hist {
 		t, kind := h.decode(op)
 		x, mt := h.xfers[t], m[t]
+		if kind == "remove-reply" {
+			// compound operation: the agent's answer to "transfer remove <T0>" (its own request
+			// id), then the open of T3 (judged as an open)
+			rr := (&demonwire.W{}).I32(agent.DEMON_COMMAND_TRANSFER_REMOVE).I32(1).I32(x.id).B
+			w.post(x.ag, demonwire.Sub{Cmd: agent.COMMAND_TRANSFER, ReqID: w.req(x.ag), Body: rr})
+			t, kind = 3, "open"
+			x, mt = h.xfers[t], m[t]
+		}
 		if mt.req == 0 {
 			mt.req = w.req(x.ag) // a transfer keeps its request id from open to close (Download.c)
 		}
@@ -395,6 +410,9 @@ func (h *histRun) step(hist []int) explore.StepResult {
 	for i := 0; i < h.nOps(); i++ {
 		if _, k := h.decode(i); k == "refused-open" && !m[0].open {
 			continue // only meaningful while T0 is running
+		}
+		if _, k := h.decode(i); k == "remove-reply" && (!m[0].open || m[3].open) {
+			continue // only meaningful while T0 is running and T3 is not
 		}
 		en = append(en, i)
 	}
